@@ -45,6 +45,8 @@ Kinds ==
                   \cup (IF CKinds \cap {"CONT", "PUSH"} # {} /\ ~Early THEN {"CONNERR"} ELSE {})
                   \cup (IF \E s \in Idle : InMap(s) /\ ~bclosed[s] /\ buf[s] # <<>> /\ "RACE" \in CKinds
                         THEN {"RACE"} ELSE {})
+                  \cup (IF \E s \in Idle : InMap(s) /\ sq[s] = <<>> /\ WRN <= Min(Min(outS[s], outC), mfsM)
+                                          /\ "WRACE" \in CKinds THEN {"WRACE"} ELSE {})
                   \cup (IF Idle # {} /\ "ret" \in HOps THEN {"h-ret"} ELSE {})
                   \cup (IF \E s \in Idle : ~bclosed[s] /\ "read" \in HOps THEN {"h-read"} ELSE {})
                   \cup (IF \E s \in Idle : InMap(s) /\ bst[s] = "open" /\ ~bclosed[s] /\ "closebody" \in HOps
